@@ -47,39 +47,6 @@ def lrotB : St :=
 
 theorem vsLeftRotate_body : Gen.IL.vsLeftRotate.body = seqK lrotItems lrotB := rfl
 
-def rrotItems : List St :=
-  [(.setI "x" (.ld2 "tree_nodes" (.var "y") (.lit 1))),
-   (.setI "x_right" (.ld2 "tree_nodes" (.var "x") (.lit 2))),
-   (.setI "y_right" (.ld2 "tree_nodes" (.var "y") (.lit 2))),
-   (selMax "tmp_max" (.ld2 "tree_vals" (.var "x_right") (.lit 7)) (.ld2 "tree_vals" (.var "y_right") (.lit 7))),
-   (.setI "_find_value_min_value1$node_id" (.var "y")),
-   (minvScope "_find_value_min_value1$node_id" "_find_value_min_value1$ret0"),
-   (.setF "min_value" (.var "_find_value_min_value1$ret0")),
-   (stMax "tree_vals" (.var "y") (.lit 7) (.var "tmp_max") (.var "min_value")),
-   (.setI "x_left" (.ld2 "tree_nodes" (.var "x") (.lit 1))),
-   (selMax "tmp_max" (.ld2 "tree_vals" (.var "x_left") (.lit 7)) (.ld2 "tree_vals" (.var "y") (.lit 7))),
-   (.setI "_find_value_min_value2$node_id" (.var "x")),
-   (minvScope "_find_value_min_value2$node_id" "_find_value_min_value2$ret0"),
-   (.setF "min_value" (.var "_find_value_min_value2$ret0")),
-   (stMax "tree_vals" (.var "x") (.lit 7) (.var "tmp_max") (.var "min_value"))]
-
-def rrotB : St :=
-  (.seq (.stI2 "tree_nodes" (.var "y") (.lit 1) (.ld2 "tree_nodes" (.var "x") (.lit 2)))
-  (.seq (.setI "x_right" (.ld2 "tree_nodes" (.var "x") (.lit 2)))
-  (.seq (.stI2 "tree_nodes" (.var "x_right") (.lit 3) (.var "y"))
-  (.seq (.stI2 "tree_nodes" (.var "x") (.lit 3) (.ld2 "tree_nodes" (.var "y") (.lit 3)))
-  (.seq (.ite (.cmpI .eq (.ld2 "tree_nodes" (.var "y") (.lit 3)) (.lit (-1)))
-      (.setI "root" (.var "x"))
-      (.seq (.setI "y_parent" (.ld2 "tree_nodes" (.var "y") (.lit 3)))
-      (.ite (.cmpI .eq (.ld2 "tree_nodes" (.var "y_parent") (.lit 1)) (.var "y"))
-        (.stI2 "tree_nodes" (.var "y_parent") (.lit 1) (.var "x"))
-        (.stI2 "tree_nodes" (.var "y_parent") (.lit 2) (.var "x")))))
-  (.seq (.stI2 "tree_nodes" (.var "x") (.lit 2) (.var "y"))
-  (.seq (.stI2 "tree_nodes" (.var "y") (.lit 3) (.var "x")) (.seq (.setI "ret0" (.var "root")) .ret))))))))
-
-theorem vsRightRotate_body : Gen.IL.vsRightRotate.body = seqK rrotItems rrotB := rfl
-
-
 /-- a row pointer of a linked subtree may be dereferenced -/
 theorem Linked.inRange {N : List Int} {n : Nat} {par : Int} {sh : Sh} (h : Linked N n par sh) (hn : 0 < n) :
     inRange sh.ptr n = true := inRange_ptr n _ (h.ptrOK hn) hn
